@@ -10,3 +10,6 @@ import WrglModel.Props.C19
 #print axioms Wrgl.C19_reuse_kept_spec
 #print axioms Wrgl.C19_failed_spill_keeps_rows
 #print axioms Wrgl.C19_no_fault_is_addRows
+#print axioms Wrgl.C19_keyless_key_is_all_columns
+#print axioms Wrgl.C19_narrower_index_list_collapses_rows
+#print axioms Wrgl.C19_reuse_keyless_keeps_every_row
